@@ -96,11 +96,11 @@ def run(model, res, tier):
         # no nested operator -> left kind -> right kind literal: decide the same rules on what the action computes
         res.notes.append('C06: no nested conversion literal; R1-R3 decided by interpreting the arithmetic action per operand-kind pair')
         _table_interp(model, res, g, acts, opaque)
-    _text_and_zero(model, res, c, g, acts, opaque, E)
-    _arrays(model, res, c, g, acts, opaque, E)
-    _concat(model, res, c, g, acts, opaque)
-    _to_number(model, res, opaque)
-    _pre1900(model, res, opaque, E)
+    H.safely(res, 'R1', 'text_and_zero', _text_and_zero, model, res, c, g, acts, opaque, E)
+    H.safely(res, 'R1', 'arrays', _arrays, model, res, c, g, acts, opaque, E)
+    H.safely(res, 'R1', 'concat', _concat, model, res, c, g, acts, opaque)
+    H.safely(res, 'R1', 'to_number', _to_number, model, res, opaque)
+    H.safely(res, 'R1', 'pre1900', _pre1900, model, res, opaque, E)
     from . import c13
     um = [mm for mm in model.modules.values() if 'serialize_date' in mm.functions and 'parse_date' in mm.functions]
     if um:
